@@ -104,4 +104,35 @@ theorem c03_matrix_TL (ps : List MatPattern) (evs : List Ev)
   rw [c01_c02_matrix_TL ps evs fuel fuel' inputs A h ms seen hi hb hr,
     MatProg.mem_naive_matrix ps h fuel'' ns hn]
 
+/-- **C06, strings**: the matches labelled `i` depend only on the `i`-th pattern — whatever else
+is compiled with it, in whatever order, under whatever log of the loop's replay. -/
+theorem c06_string_TL (ps ps' : List (List CharVar)) (evs evs' : List Ev)
+    (fuel fuel' fuel2 fuel2' : Nat) (inputs inputs' : List (Nat × List StrCons × List Nat))
+    (A A' : Automaton Nat CharPred) (h : List Nat) (ms ms' : List (Match StrPos))
+    (seen seen' : List (Nat × List (Option Nat)))
+    (hi : TBL.strInputs ps = some inputs) (hi' : TBL.strInputs ps' = some inputs')
+    (hb : buildTL (charTree natLt) strReq fuel inputs evs = .ok A)
+    (hb' : buildTL (charTree natLt) strReq fuel2 inputs' evs' = .ok A')
+    (hr : run strDomain A h fuel' = .ok (ms, seen))
+    (hr' : run strDomain A' h fuel2' = .ok (ms', seen'))
+    (i j : Nat) (hij : ps[i]? = ps'[j]?) (m : StrPos) :
+    (i, m) ∈ ms ↔ (j, m) ∈ ms' := by
+  rw [c01_c02_string_TL ps evs fuel fuel' inputs A h ms seen hi hb hr,
+    c01_c02_string_TL ps' evs' fuel2 fuel2' inputs' A' h ms' seen' hi' hb' hr', hij]
+
+/-- **C06, matrices**. -/
+theorem c06_matrix_TL (ps ps' : List MatPattern) (evs evs' : List Ev)
+    (fuel fuel' fuel2 fuel2' : Nat) (inputs inputs' : List (Nat × List MatCons × List MKey))
+    (A A' : Automaton MKey CharPred) (h : MatHost) (ms ms' : List (Match MatPos))
+    (seen seen' : List (Nat × List (Option MVal)))
+    (hi : TBL.matInputs ps = some inputs) (hi' : TBL.matInputs ps' = some inputs')
+    (hb : buildTL (charTree mkeyLt) matReq fuel inputs evs = .ok A)
+    (hb' : buildTL (charTree mkeyLt) matReq fuel2 inputs' evs' = .ok A')
+    (hr : run matDomain A h fuel' = .ok (ms, seen))
+    (hr' : run matDomain A' h fuel2' = .ok (ms', seen'))
+    (i j : Nat) (hij : ps[i]? = ps'[j]?) (m : MatPos) :
+    (i, m) ∈ ms ↔ (j, m) ∈ ms' := by
+  rw [c01_c02_matrix_TL ps evs fuel fuel' inputs A h ms seen hi hb hr,
+    c01_c02_matrix_TL ps' evs' fuel2 fuel2' inputs' A' h ms' seen' hi' hb' hr', hij]
+
 end Pm
